@@ -40,9 +40,12 @@ int main(int argc, char** argv) {
       I.update_gaussian_basis_coords((int)c.shells.size(), sc0.data());
       I.update_ecp_basis_coords((int)c.ecps.size(), ec0.data());
     }
-    I.compute_integrals();
-    if (order > 0) I.compute_first_derivs();
-    if (order > 1) I.compute_second_derivs();
+    // repeat > 1: every compute routine is called that many times on the same integrator; the containers dumped are those after the last call
+    for (long rep = 0; rep < std::max(1L, c.geti("repeat", 1)); rep++) {
+      I.compute_integrals();
+      if (order > 0) I.compute_first_derivs();
+      if (order > 1) I.compute_second_derivs();
+    }
     int ns = (int)I.shells.size(), ne = I.ecps.getN();
     std::fprintf(f, "case %s\n", c.id.c_str());
     put_int(f, "order", order); put_int(f, "natoms", I.natoms); put_int(f, "ncart", I.ncart);
